@@ -7,7 +7,9 @@
              for order 0 additionally "ncomp": `nComponents s` (XgiModel/C13/Components.lean), the number of connected
              components of the 1-skeleton, which `ker_L0_finrank` proves to be dim ker L_0
            {"out":"err"}         a lookup of the Python loops fails (the call raises)
-           {"out":"unmodelled"}  labels that are not int/str, orientation dict not covering every simplex of order ≥ 1
+           {"out":"unmodelled"}  labels that are not int/str, orientation dict not covering every simplex of order ≥ 1,
+                                 a negative orientation value
+           {"out":"bad-op"}      ill-typed request (unknown "f", missing field, non-integer orientation value)
 -/
 import XgiModel.Proto
 import XgiModel.C13.Hodge
@@ -36,40 +38,58 @@ def scOfJson (j : Json) : Parsed SC :=
       | _, _ => .unmodelled
   | _, _ => .bad
 
-/-- `none` = ill-typed; `some none` = `orientations=None`; `some (some d)` = a dict -/
-def orientOfJson (j : Json) : Option (Option (List (PyId × Nat))) :=
+/-- `.bad` = ill-typed; `.unmodelled` = a negative value (the model's orientations are naturals; xgi documents
+    boolean orientations); `.ok none` = `orientations=None`; `.ok (some d)` = a dict -/
+def orientOfJson (j : Json) : Parsed (Option (List (PyId × Nat))) :=
   match getField? j "orient" with
-  | some .null => some none
-  | some (.arr a) => (a.toList.mapM (fun (p : Json) => match p with
-      | Json.arr #[i, Json.num n] => if n.exponent = 0 ∧ n.mantissa ≥ 0 then (idOfJson? i).map (fun i => (i, n.mantissa.toNat)) else none
-      | _ => none)).map some
-  | _ => none
+  | some .null => .ok none
+  | some (.arr a) =>
+    match a.toList.mapM (fun (p : Json) => match p with
+      | Json.arr #[i, Json.num n] => if n.exponent = 0 then (idOfJson? i).map (fun i => (i, n.mantissa)) else none
+      | _ => none) with
+    | none => .bad
+    | some l =>
+      if l.all (fun p => decide (p.2 ≥ 0)) then .ok (some (l.map (fun p => (p.1, p.2.toNat)))) else .unmodelled
+  | _ => .bad
 
 def matJson (m : Mat) : List (String × Json) :=
   [("shape", Json.arr #[natJson m.r, natJson m.c]),
    ("M", Json.arr (m.toLists.map (fun row => Json.arr (row.map intJson).toArray)).toArray)]
 
-def handle (_ : Unit) (j : Json) : Unit × Json :=
-  ((), match getStr? j "f", getNat? j "order", orientOfJson j with
-  | some f, some k, some od =>
-    match scOfJson j with
-    | .bad => badOp
-    | .unmodelled => Json.mkObj [("out", "unmodelled")]
-    | .ok s =>
+/-- driver state: the complex of the previous request and the decision `WF` for it (the harness sends the requests of
+    one complex consecutively — every order, both functions — and `decide (WF s)` is the same for all of them) -/
+abbrev St := Option (SC × Bool)
+
+def wfOf (st : St) (s : SC) : Bool :=
+  match st with
+  | some (s', b) => if s'.nodes = s.nodes ∧ s'.simplices = s.simplices then b else decide (WF s)
+  | none => decide (WF s)
+
+def handle (st : St) (j : Json) : St × Json :=
+  match getStr? j "f", getNat? j "order" with
+  | some f, some k =>
+    if f ≠ "boundary_matrix" ∧ f ≠ "hodge_laplacian" then (st, badOp) else
+    match scOfJson j, orientOfJson j with
+    | .bad, _ => (st, badOp)
+    | _, .bad => (st, badOp)
+    | .unmodelled, _ => (st, Json.mkObj [("out", "unmodelled")])
+    | _, .unmodelled => (st, Json.mkObj [("out", "unmodelled")])
+    | .ok s, .ok od =>
       let d := od.getD (defaultOrient s)
-      if !orientCovers d s then Json.mkObj [("out", "unmodelled")] else
+      if !orientCovers d s then (st, Json.mkObj [("out", "unmodelled")]) else
       let o := orientOf d
-      let wf : String × Json := ("wf", Json.bool (decide (WF s)))
+      let b := wfOf st s
+      let st' : St := some (s, b)
+      let wf : String × Json := ("wf", Json.bool b)
       let ok : String × Json := ("out", Json.str "ok")
-      if f = "boundary_matrix" then
+      (st', if f = "boundary_matrix" then
         if !boundaryDefined s k o then Json.mkObj [("out", "err")] else
         Json.mkObj ([ok, wf, ("rows", idsToJson (downIds s k)), ("cols", idsToJson (upIds s k))]
           ++ matJson (boundary s k o))
-      else if f = "hodge_laplacian" then
+      else
         if !hodgeDefined s k o then Json.mkObj [("out", "err")] else
         Json.mkObj ([ok, wf, ("keys", idsToJson (upIds s k))] ++ matJson (hodge s k o)
-          ++ (if k = 0 then [("ncomp", natJson (nComponents s))] else []))
-      else badOp
-  | _, _, _ => badOp)
+          ++ (if k = 0 then [("ncomp", natJson (nComponents s))] else [])))
+  | _, _ => (st, badOp)
 
 end Xgi.C13.Drive
